@@ -48,6 +48,13 @@ Alphabet (d in {"O","I"}; E = the endpoint that sends in direction d, P = its pe
                               circuit.send(msg) (forwarded as usual) -- and only then take()s it and sends the copy
                               (original always carries acks); the copy must not show any ack again
   ("sendheld", d)             the addon sends the copy it kept
+  ("rtxd", d, sel)            the proxy's ack for a reliable packet it dropped got lost: E retransmits its latest dropped
+                              packet (same ID, RESENT) with FRESH appended acks (all pending / none) and the proxy drops
+                              it again [dev]
+  ("cancel",)                 an addon cancels the future send_reliable returned for the oldest still pending injected
+                              packet (asyncio.wait_for timeout) [dev, once per history]; afterwards nothing is demanded
+                              of that packet's completion or retransmission, every other clause keeps holding and no
+                              exception may escape collect_acks / resend_unacked / the attempt_resends task
   ("ping", d, which)          E sends StartPingCheck (unreliable, forwarded) with OldestUnacked = its oldest unacked
                               reliable id ("u") or the id its next packet will carry ("n") [dev, weight 2]; the
                               rewritten value is not judged, the event is there for its effect on translation state
@@ -249,6 +256,7 @@ class Endpoint:
         self.next_id = 1
         self.sent: Dict[int, List[Any]] = {}   # own id -> [reliable, fate "fwd"|"drop"|"supp", wire id or None]
         self.own_unacked: List[int] = []       # own reliable ids it has not been shown an ack for (send order)
+        self.dropped: List[int] = []           # own reliable ids the proxy dropped (and acked to it)
         self.pending: List[int] = []           # wire ids of reliable packets received and not yet acked (receipt order)
         self.rmap: Dict[int, Tuple] = {}       # wire id of a reliable packet received -> ("P", peer id) | ("J", dir, wire)
 
@@ -261,17 +269,18 @@ class Endpoint:
         n.next_id = self.next_id
         n.sent = {k: list(v) for k, v in self.sent.items()}
         n.own_unacked = list(self.own_unacked)
+        n.dropped = list(self.dropped)
         n.pending = list(self.pending)
         n.rmap = dict(self.rmap)
         return n
 
     def canon(self):
-        return (self.next_id, tuple((k, tuple(self.sent[k])) for k in self.own_unacked),
+        return (self.next_id, tuple(self.dropped[-1:]), tuple((k, tuple(self.sent[k])) for k in self.own_unacked),
                 tuple(self.pending), tuple(sorted(self.rmap.items())))
 
 
 class Inj:
-    __slots__ = ("d", "wire", "rel", "tag", "state", "last", "elapsed", "future")
+    __slots__ = ("d", "wire", "rel", "tag", "state", "last", "elapsed", "future", "api")
 
     def canon(self, now):
         live = self.state == "pending"
@@ -393,6 +402,7 @@ class World:
         self.ninj = {"O": 0, "I": 0}
         self.any_reliable = False                                   # some reliable packet passed through the circuit
         self.held: Dict[str, List[Tuple[int, bool, int, Any]]] = {"O": [], "I": []}  # take()n copies not yet re-sent
+        self.cancel_used = False                                    # the one future cancellation of a history happened
         self.violations: List[Dict[str, Any]] = []
         self.last_out: Tuple = ()
         self.flags: Tuple = ()
@@ -409,12 +419,14 @@ class World:
         for key, i in self.inj.items():
             j = Inj()
             j.d, j.wire, j.rel, j.tag, j.state, j.last, j.elapsed = i.d, i.wire, i.rel, i.tag, i.state, i.last, i.elapsed
+            j.api = i.api
             j.future = _clone_future(i.future, futs) if i.future is not None else None
             n.inj[key] = j
             n.inj_by_tag[j.tag] = j
         n.ninj = dict(self.ninj)
         n.any_reliable = self.any_reliable
         n.held = {d: [(a, b, c, copy.deepcopy(m)) for (a, b, c, m) in v] for d, v in self.held.items()}
+        n.cancel_used = self.cancel_used
         n.violations, n.last_out, n.flags, n.dead = [], self.last_out, self.flags, self.dead
         return n
 
@@ -609,6 +621,8 @@ class Harness:
                 evs.append(("rtx", d, 0))
                 evs.append(("rtx", d, 1))
                 evs.append(("ping", d, "u"))
+            if e.dropped:
+                evs.append(("rtxd", d, "a" if npend else "-"))
             evs.append(("ping", d, "n"))
             # only reliable packets are taken: an unreliable copy is an unreliable injection after an unreliable drop
             evs.append(("take", d, 1, "a" if npend else "-", 0))
@@ -622,6 +636,8 @@ class Harness:
         if w.any_reliable:
             evs.append(("T", "short"))
             evs.append(("T", "exhaust"))
+        if not w.cancel_used and any(i.state == "pending" and i.api for i in w.inj.values()):
+            evs.append(("cancel",))
         return evs
 
     def deviation(self, ev) -> int:
@@ -630,7 +646,7 @@ class Harness:
             return 1 if (ev[4] or ev[3] in ("o", "w", "n", "d", "r")) else 0
         if k == "pack":
             return 1 if ev[2] in ("o", "w", "d", "r") else 0
-        if k == "rtx":
+        if k in ("rtx", "rtxd", "cancel"):
             return 1
         if k in ("take", "ping", "packmix"):
             return 2      # rare events weigh double: a history holds at most one of them plus one ordinary deviation
@@ -651,7 +667,7 @@ class Harness:
                             info.completed.done()))
         return (trackers, tuple(unacked), bool(c.is_alive), w.ep["O"].canon(), w.ep["I"].canon(),
                 tuple(i.canon(w.now) for i in w.inj.values()), tuple(sorted(w.ninj.items())), w.dead,
-                tuple((d, tuple((a, b) for (a, b, _c, _m) in w.held[d])) for d in DIRS))
+                tuple((d, tuple((a, b) for (a, b, _c, _m) in w.held[d])) for d in DIRS), w.cancel_used)
 
     def observe(self, w: World):
         return w.last_out
@@ -688,6 +704,10 @@ class Harness:
                 self._endpoint_packet(w, ev[1], "ack", False, "a", False, rtx=False, mix=ev[2])
             elif kind == "rtx":
                 self._endpoint_packet(w, ev[1], "data", True, "-", bool(ev[2]), rtx=True)
+            elif kind == "rtxd":
+                self._endpoint_packet(w, ev[1], "data", True, ev[2], True, rtx="dropped")
+            elif kind == "cancel":
+                self._cancel(w)
             elif kind == "take":
                 mode = TAKE_MODES[ev[4]]
                 self._endpoint_packet(w, ev[1], "data", bool(ev[2]), ev[3], mode != "aftersend", rtx=False, take=mode)
@@ -772,6 +792,11 @@ class Harness:
                 w.loop.advance(0.1)                      # fires attempt_resends' sleep
                 w.loop.set_time((w.now - i) / 10.0)      # stay on the 0.1 s grid (no float drift)
             self._loop_exceptions(w, "InterceptingLLUDPProxyProtocol.attempt_resends")
+            task = w.protocol.resend_task
+            if task.done():
+                w.bad("exception", "InterceptingLLUDPProxyProtocol.attempt_resends",
+                      f"the resend task died: {task.exception()!r}" if not task.cancelled() else "the resend task was cancelled")
+                raise _Abort()
 
     def _loop_exceptions(self, w: World, site: str):
         if w.loop.exceptions:
@@ -802,7 +827,11 @@ class Harness:
                 peer_acks.append(r[1])
             else:
                 inj_acks.append((r[1], r[2]))
-        if rtx:
+        if rtx == "dropped":
+            # the proxy's ack for this dropped packet got lost: E sends it again (same id, RESENT, fresh acks)
+            n = E.dropped[-1]
+            first_wire = None
+        elif rtx:
             n = E.own_unacked[0]
             first_wire = E.sent[n][2]
         else:
@@ -834,6 +863,8 @@ class Harness:
             E.sent[n] = [rel, ("take" if take else "drop") if drop else "fwd", None]
             if rel:
                 E.own_unacked.append(n)
+                if drop and not take and what == "data":
+                    E.dropped.append(n)
         to_P = [g for g in out if g.d == d]
         to_E = [g for g in out if g.d != d]
         copy_dg: Optional[Dg] = None
@@ -931,7 +962,7 @@ class Harness:
         if drop and rel:
             fl.append("drop-reliable")
         if rtx:
-            fl.append("endpoint-rtx")
+            fl.append("endpoint-rtx-of-dropped" if rtx == "dropped" else "endpoint-rtx")
         if take:
             fl.append("take-" + take)
         if what == "ping":
@@ -951,6 +982,18 @@ class Harness:
                 w.bad("ack-not-own-id", site, f"{ctx}: copy shows ack {x} to endpoint sending {xdir}, which only sent {sorted(X.sent)}")
             else:
                 w.bad("ack-without-cause", site, f"{ctx}: copy shows ack {x} nobody gave in this step")
+
+    # an addon gives up waiting on an injected reliable packet: what `await asyncio.wait_for(fut, t)` does on timeout
+    def _cancel(self, w: World):
+        inj = next(i for i in w.inj.values() if i.state == "pending" and i.api)
+        inj.future.cancel()
+        if w.seam != "deep":
+            w.loop.run_ready()
+            self._loop_exceptions(w, "asyncio.Future.cancel")
+        # from here on nothing is demanded of THIS packet's completion or retransmission; everything else keeps holding
+        inj.state = "cancelled"
+        w.cancel_used = True
+        w.flags = ("cancel-future",)
 
     # the addon sends a copy it took earlier: an injection from the circuit's point of view
     def _send_held(self, w: World, d: str):
@@ -977,11 +1020,13 @@ class Harness:
             w.bad("reliable-wire-id-reused", "InjectionTracker.gen_injectable_id", f"injected wire id {g.wire} toward {d} already in use")
         if rel:
             w.any_reliable = True
+            api = fut is not None           # the caller holds the future (send_reliable), so an addon can cancel it
             if fut is None:
                 # plain send() hands out no future: read it where the anchors say it lives (absent = not tracked)
                 info = w.circuit.unacked_reliable.get((LIBDIR[d], g.wire))
                 fut = getattr(info, "completed", None)
             inj = Inj()
+            inj.api = api
             inj.d, inj.wire, inj.rel, inj.tag, inj.state, inj.last, inj.elapsed, inj.future = d, g.wire, rel, tag, "pending", w.now, 0, fut
             w.inj[(d, g.wire)] = inj
             w.inj_by_tag[tag] = inj
@@ -1043,6 +1088,9 @@ class Harness:
         fl = set()
         tr = w.tr
         live = [i for i in w.inj.values() if i.state == "pending"]
+        # a cancelled send is not judged, but as long as the circuit keeps resending it the long tick must keep polling at
+        # its cadence too (otherwise the moment its budget runs out would be skipped)
+        watched = [i for i in w.inj.values() if i.state == "cancelled"]
         remaining = polls
         while remaining > 0:
             k = 1
@@ -1050,11 +1098,13 @@ class Harness:
                 # the long tick polls densely only around the instants at which the model says something becomes due
                 # (one poll before, at, after); whatever the circuit sends in a skipped stretch is early by construction.
                 # Dense polling everywhere is what Tick short / past do.
-                k = remaining if not live else max(1, min(remaining, min(i.last for i in live) + w.interval - 1 - w.now))
+                due = [i.last for i in live] + [i.last for i in watched]
+                k = remaining if not due else max(1, min(remaining, min(due) + w.interval - 1 - w.now))
             w.now += k
             remaining -= k
             self._poll(w, k)
             if not tr.out and not live:
+                watched = [i for i in watched if w.now - i.last <= w.interval + 1]
                 continue
             got: Dict[Tuple[str, int], int] = {}
             if tr.out:
@@ -1073,7 +1123,10 @@ class Harness:
                     if (g.flags & (F_REL | F_RESENT)) != (F_REL | F_RESENT):
                         w.bad("resend-flags", site, f"retransmission of {key} has flags {g.flags:#x}, wants RELIABLE|RESENT")
                     got[key] = got.get(key, 0) + 1
-                    if inj.state != "pending":
+                    if inj.state == "cancelled":
+                        w.ep[OTHER[inj.d]].receive_reliable(inj.wire)      # unspecified whether it is still resent
+                        inj.last = w.now
+                    elif inj.state != "pending":
                         w.bad("resend-after-completion", site, f"t={w.now / 10}s: injected {key} retransmitted although it is {inj.state}")
                     else:
                         w.ep[OTHER[inj.d]].receive_reliable(inj.wire)
@@ -1114,6 +1167,7 @@ class Harness:
                         fl.add("resend")
                     still.append(inj)
             live = still
+            watched = [i for i in watched if w.now - i.last <= w.interval + 1]     # gone quiet: stop following it
             if w.violations:
                 break
         w.last_out = tuple(g.sig() for g in all_out)
